@@ -401,6 +401,32 @@ class PTable(EngineBase):
                         e["op_id"] += shift
                 ops[at:at] = seq
                 world["overlap"] = True
+        if prop == "C01" and rng.random() < 0.06:
+            # the program holds a handle on itself, fork()s and goes on in
+            # the child - which may even receive a recycled PID some handle
+            # still points to; the old PID lives on as the parent
+            for e in inside:
+                e["op_id"] += 1
+            ops.insert(0, {"op": "new_self"})
+            world["pool"] = world["pool"] + [1000]
+            at = rng.randrange(1, min(len(ops), 12) + 1)
+            for e in inside:
+                if e["op_id"] >= at:
+                    e["op_id"] += 1
+            ops.insert(at, {"op": "ev", "ev": {
+                "ev": "fork_self", "pid": rng.choice(
+                    world["pool"][:-1] + [1001, 1001])}})
+            for _ in range(rng.randrange(1, 4)):
+                at2 = rng.randrange(at + 1, len(ops) + 1)
+                for e in inside:
+                    if e["op_id"] >= at2:
+                        e["op_id"] += 1
+                ops.insert(at2, rng.choice([
+                    {"op": "set", "h": 0, "m": "rlimit",
+                     "res": rng.randrange(0, 16), "lim": [5, 5]},
+                    {"op": "set", "h": 0, "m": "nice", "v": 3},
+                    {"op": "sig", "h": rng.randrange(64), "m": "suspend"},
+                    {"op": "sig", "h": 0, "m": "send_signal", "sig": 18}]))
         if prop == "C02" and rng.random() < 0.06:
             # the program looks at itself, fork()s and goes on in the child;
             # its old PID becomes one more process that may exit and be
